@@ -493,6 +493,14 @@ func c03(c *Ctx) {
 			_, ok := hasFact(edgeFacts(from, to), IsNil(func(v ssa.Value) bool { return v == deq.Value() }))
 			return ok
 		}}, deq)
+		// 'nothing to do' (the writer may flush and block) is reported only without connection quota or with an empty active
+		// list — never after a stream was merely parked: streams queued behind it may still be writable
+		for _, r := range returnsOf(pd) {
+			if r.Block() == pd.Recover || ConstBool(false)(r.Results[0]) {
+				continue // a result that is not the constant false may be true
+			}
+			c.MustFactAny(r, "idle-reported-only-without-quota-or-without-active-streams", CmpInt(FieldLoad(fSQ), token.EQL, 0), IsNil(func(v ssa.Value) bool { return v == deq.Value() }))
+		}
 		upd := one(c, "updateStreamAfterWrite call", callsIn(pd, Callee(tr, "loopyWriter.updateStreamAfterWrite")))
 		c.MustPass("written-stream-gets-its-next-state", pathQuery{Fn: pd, Starts: []ssa.Instruction{wd}, Barrier: func(in ssa.Instruction) bool { return in == ssa.Instruction(upd) }, Target: isReturn,
 			EdgeBlock: func(from, to *ssa.BasicBlock) bool {
@@ -691,6 +699,39 @@ func c17(c *Ctx) {
 		for _, st := range storesToField(ini, fDone) {
 			c.ValueIs(st, st.Val, "done-from-caller", ParamV("done"))
 		}
+	})
+	c.Ob("waiter-count", "R12", "client stream admission: the count of calls waiting for stream quota goes up only when a call finds no quota on its first try, and down only when a call that had been counted is admitted (quota positive); a woken caller that finds no quota again stays counted, so every wake-up site that tests 'waiters > 0' still sees it", 2, func() {
+		fSQ := c.field(tr, "http2Client", "streamQuota")
+		fWS := c.field(tr, "http2Client", "waitingStreams")
+		first := func(v ssa.Value) bool {
+			u, ok := v.(*ssa.UnOp)
+			if !ok {
+				return false
+			}
+			fv, ok := u.X.(*ssa.FreeVar)
+			return ok && fv.Name() == "firstTry"
+		}
+		n := 0
+		for _, f := range c.scope(tr) {
+			if shortName(topFunc(f)) != "internal/transport.http2Client.NewStream" {
+				continue
+			}
+			for _, st := range storesToField(f, fWS) {
+				n++
+				switch {
+				case BinOpV(token.ADD, FieldLoad(fWS), ConstInt(1))(st.Val):
+					c.MustFact(st, "counted-only-when-there-is-no-quota", CmpInt(FieldLoad(fSQ), token.LEQ, 0))
+					c.MustFact(st, "counted-only-on-the-first-try", Truth(first, true))
+				case BinOpV(token.SUB, FieldLoad(fWS), ConstInt(1))(st.Val):
+					c.MustFact(st, "uncounted-only-when-admitted", CmpInt(FieldLoad(fSQ), token.GTR, 0))
+					c.MustFact(st, "uncounted-only-if-it-had-been-counted", Truth(first, false))
+				default:
+					c.Expect(false, st, f, "waiter-count-changes-by-one", "the waiter count is changed by something other than +1 / -1")
+				}
+			}
+		}
+		c.Expect(n == 2, nil, nil, "waiter-count-sites", "expected one increment and one decrement of the waiter count in stream admission")
+		c.WhoMayMutate("waitingStreams", fWS, c.scope(tr), "internal/transport.http2Client.NewStream", "internal/transport.NewHTTP2Client")
 	})
 	c.Ob("stream-quota-signal", "R12", "client: every change of the stream quota (taken by a new stream, returned by a closing stream, raised by SETTINGS) is followed, on every path on which quota is left positive and someone is waiting, by a wake-up on streamsQuotaAvailable (non-blocking token, or close-and-replace broadcast); a waiter registers itself before sleeping on that channel", 3, func() {
 		fSQ := c.field(tr, "http2Client", "streamQuota")
